@@ -197,9 +197,27 @@ func TestC15(t *testing.T) {
 		fmt.Println("REPLAY case passed")
 		return
 	}
-	ev.Rule("fresh-process probes: the first conversion of a process for 7 source types x 3 helpers x parallelism {1,2,3,6,7,16,300}, each probe once as the first action of a process, plus generated orders and environment presets; rapid: source image of every standard type (RGBA64, NRGBA64, RGBA, NRGBA, YCbCr x 6 subsamplings, NYCbCrA, Gray, Gray16, Alpha, Alpha16, CMYK, Paletted, opaque wrapper), width/height 0..9, origin in [-6,6]^2 (non-negative for YCbCr), optionally a sub-image of a larger parent, pixel bytes prng/0xff/0/ramp; parallelism in {1,2,3,7,16,rows+5}; 3 helpers. Plus banners (1-3 rows of 64..20000 pixels, widths around powers of two, non-zero x origins, sub-images; a tenth of the rapid images and a sweep over every type x helper), a fixed cross-product types x helpers x parallelism on awkward geometry, and (thorough) all 2^24 YCbCr triples and every byte value in every channel position. non-trivial = distinct case whose source is handled by a hand-written loop, or has non-zero origin, or parallelism > rows")
+	ev.Rule("fresh-process probes: the first conversion of a process for 7 source types x 3 helpers x parallelism {1,2,3,6,7,16,300}, each probe once as the first action of a process, plus generated orders and environment presets; rapid: source image of every standard type (RGBA64, NRGBA64, RGBA, NRGBA, YCbCr x 6 subsamplings, NYCbCrA, Gray, Gray16, Alpha, Alpha16, CMYK, Paletted, opaque wrapper), width/height 0..9, origin in [-6,6]^2 (non-negative for YCbCr), optionally a sub-image of a larger parent, pixel bytes prng/0xff/0/ramp; parallelism in {1,2,3,7,16,rows+5}; 3 helpers. Plus 128x96 crops of 1280x1024 parents near the top, middle and bottom; banners (1-3 rows of 64..20000 pixels, widths around powers of two, non-zero x origins, sub-images; a tenth of the rapid images and a sweep over every type x helper), a fixed cross-product types x helpers x parallelism on awkward geometry, and (thorough) all 2^24 YCbCr triples and every byte value in every channel position. non-trivial = distinct case whose source is handled by a hand-written loop, or has non-zero origin, or parallelism > rows")
 	ev.Assume("image/draw.Draw with draw.Src is the reference conversion")
 	ev.ProbeOrders(ev.Pick(1, 10))
+	// small crops of large parents (a thumbnail region of a 5 MB frame buffer), near the top, the middle and the bottom:
+	// same pixels, same instance for the identity helpers, whatever the parent holds besides
+	{
+		nc := 0
+		for ti, typ := range []string{"NRGBA", "RGBA", "RGBA64", "NRGBA64", "YCbCr", "Gray"} {
+			for hi, helper := range []string{"NRGBA", "RGBA", "RGBA64"} {
+				y0 := []int{30, 500, 920}[(ti+hi)%3]
+				c := Case{Src: img.Spec{Type: typ, Ratio: ti % 6, Rect: [4]int{40, y0, 168, y0 + 96}, Parent: [4]int{0, 0, 1280, 1024}, Fill: "prng", Seed: uint64(ti*3+hi) + ev.Seed(), PalN: 256}, Helper: helper, Par: []int{1, 4, 300}[hi]}
+				ev.Eval(1)
+				nc++
+				ev.NT(ev.Hash("bigparent", c))
+				if k, w, _ := check(c); k != "" {
+					ev.Violation("convert", c.Helper+"/"+k, w, c)
+				}
+			}
+		}
+		ev.Class("crops-of-large-parents", int64(nc))
+	}
 	// fixed cross product on awkward geometry
 	for _, typ := range img.Types {
 		ratios := []int{0}
